@@ -11,8 +11,8 @@ ID = 'C07'
 LEVEL = 'exploration'
 BUDGET = {'quick': 150, 'thorough': 1800}
 CHUNK = 2
-RULE = ('Cases: 2..8 samples (related sequences with substitutions, N, private extra records; also disjoint and identical '
-        'samples) partitioned into 2..4 files in every order, merged flat or nested (merging merged files); the result of '
+RULE = ('Cases: 2..8 samples (related sequences with substitutions, N, private extra records; disjoint and identical '
+        'samples; a third of the cases with samples realising tables of all 15 ambiguity codes; output prefixes with and without dots) partitioned into 2..4 files in every order, merged flat or nested (merging merged files); the result of '
         '`ska merge` is compared with one joint `ska build` of the same samples in the merged order (differential) and with '
         'the reference model.  k forced at 29/31/33/35 (width boundary) plus random odd k, both strand modes.  Refusal cases: '
         'a file with k+-2 or the opposite strand mode as first and as later argument must give a non-zero exit and leave no '
@@ -21,7 +21,7 @@ RULE = ('Cases: 2..8 samples (related sequences with substitutions, N, private e
 ASSUMPTIONS = ['the joint build is a run of the same binary (differential oracle); the model is the independent one',
                'sample names are s<i> (from file names)']
 REQUIRED = {t: ['merge:flat', 'merge:nested', 'refuse:k:first', 'refuse:k:later', 'refuse:rc:first', 'refuse:rc:later',
-                'width64', 'width128', 'padded_cells'] for t in ('quick', 'thorough')}
+                'width64', 'width128', 'padded_cells', 'samples_with_all_codes', 'dotted_output_prefix'] for t in ('quick', 'thorough')}
 
 
 def builds(tier):
@@ -41,10 +41,18 @@ def plan(tier, seed, rng, scale):
     for i, d in enumerate(descs):
         d['chk'] = (i % 7 == 0)
         d['refuse'] = (i % 4 == 0)
+        d['codes'] = (i % 3 == 1)
     return descs
 
 
-def gen_samples(rng, k, ns):
+def gen_samples(rng, k, ns, codes=False):
+    if codes:
+        # samples realising a table with all 15 codes and gaps (one record per row, sample and base of the code's set)
+        rows = G.make_table(rng, k, ns, rng.randint(4, 30), styles=('allcodes', 'allcodes', 'oneambig', 'bases'))
+        for s_ in range(ns):
+            if all(r[s_] == '-' for r in rows.values()):
+                rows[next(iter(rows))][s_] = rng.choice('ACGTMRN')
+        return [G.table_records(rows, k, s_) for s_ in range(ns)]
     style = rng.choice(['related', 'related', 'disjoint', 'identical', 'mixed'])
     base = [G.rseq(rng, rng.randint(k, 5 * k)) for _ in range(rng.randint(1, 3))]
     out = []
@@ -70,11 +78,17 @@ def run_case(desc, ctx):
     k, rcmode = desc['k'], desc['rc']
     rng = random.Random(desc['seed'])
     ns = rng.randint(2, 8)
-    samples = gen_samples(rng, k, ns)
+    samples = gen_samples(rng, k, ns, codes=desc.get('codes', False) and rcmode)
     if any(not M.build(r, k, rcmode) for r in samples):
         res.count('degenerate_sample_skipped')
         return res
+    if desc.get('codes') and rcmode:
+        res.count('samples_with_all_codes')
     files = [G.write_fa(ctx.path('s%d.fa' % i), recs) for i, recs in enumerate(samples)]
+    # output prefixes: plain, or with dots in the file name (E.coli -> E.coli.skf)
+    outname = rng.choice(['m', 'm', 'merged.v1', 'E.coli.run2'])
+    if '.' in outname:
+        res.count('dotted_output_prefix')
     # partition into 2..4 files, file order = a random permutation of the parts
     nparts = rng.randint(2, min(4, ns))
     idx = list(range(ns))
@@ -100,11 +114,11 @@ def run_case(desc, ctx):
         if nested:
             cut = rng.randint(2, len(pf) - 1) if len(pf) > 2 else 2
             p0 = ctx.sh(b, 'merge', *pf[:cut], '-o', ctx.path('m0'))
-            p = ctx.sh(b, 'merge', ctx.path('m0.skf'), *pf[cut:], '-o', ctx.path('m'))
+            p = ctx.sh(b, 'merge', ctx.path('m0.skf'), *pf[cut:], '-o', ctx.path(outname))
             if p0.returncode != 0:
                 p = p0
         else:
-            p = ctx.sh(b, 'merge', *pf, '-o', ctx.path('m'))
+            p = ctx.sh(b, 'merge', *pf, '-o', ctx.path(outname))
         if variant == 'chk':
             res.count('chk_runs')
             if p.returncode != 0 and 'overflow' in p.stderr:
@@ -118,7 +132,7 @@ def run_case(desc, ctx):
                         {'samples': samples, 'parts': parts})
             continue
         try:
-            hm, Tm = G.nk(ctx, ctx.path('m.skf'), binary=b)
+            hm, Tm = G.nk(ctx, ctx.path(outname + '.skf'), binary=b)
             hj, Tj = G.nk(ctx, ctx.path('joint.skf'), binary=b)
         except (G.NkFailed, ValueError) as e:
             res.violate('C07:nk-failed', 'nk failed after merge: %s' % e, {'samples': samples, 'parts': parts})
